@@ -32,19 +32,31 @@ pub trait BottomUpBuilder<'a, Ptr: DDNNFPtr> {
         ensures forall|p: Ptr| #![trigger p.is_true_s()] #![trigger p.is_false_s()] (p.is_true_s() || p.is_false_s()) ==> self.ok(p) && self.shape2(p);
 
     fn true_ptr(&self) -> (r: Ptr)
-        ensures self.ok(r), self.shape2(r), forall|env: Env| #![trigger tr(env)] #![trigger r.sem(env)] tr(env) ==> r.sem(env);
+        ensures
+            self.ok(r),
+            self.shape2(r), // #C02
+            forall|env: Env| #![trigger tr(env)] #![trigger r.sem(env)] tr(env) ==> r.sem(env); // #SEM
     fn false_ptr(&self) -> (r: Ptr)
-        ensures self.ok(r), self.shape2(r), forall|env: Env| #![trigger tr(env)] #![trigger r.sem(env)] tr(env) ==> !r.sem(env);
+        ensures
+            self.ok(r),
+            self.shape2(r), // #C02
+            forall|env: Env| #![trigger tr(env)] #![trigger r.sem(env)] tr(env) ==> !r.sem(env); // #SEM
 
     fn var(&'a self, label: VarLabel, polarity: bool) -> (r: Ptr)
         requires self.bu_inv(), self.lbl_ok(label),
-        ensures self.ok(r), self.shape2(r), forall|env: Env| #![trigger tr(env)] #![trigger r.sem(env)] tr(env) ==> r.sem(env) == (env(label.0) == polarity);
+        ensures
+            self.ok(r),
+            self.shape2(r), // #C02
+            forall|env: Env| #![trigger tr(env)] #![trigger r.sem(env)] tr(env) ==> r.sem(env) == (env(label.0) == polarity); // #SEM
 
     fn eq(&'a self, a: Ptr, b: Ptr) -> bool;
 
     fn and(&'a self, a: Ptr, b: Ptr) -> (r: Ptr)
         requires self.bu_inv(), self.ok(a), self.ok(b),
-        ensures self.ok(r), self.shape2(a) && self.shape2(b) ==> self.shape2(r), forall|env: Env| #![trigger tr(env)] #![trigger r.sem(env)] tr(env) ==> r.sem(env) == (a.sem(env) && b.sem(env));
+        ensures
+            self.ok(r),
+            self.shape2(a) && self.shape2(b) ==> self.shape2(r), // #C02
+            forall|env: Env| #![trigger tr(env)] #![trigger r.sem(env)] tr(env) ==> r.sem(env) == (a.sem(env) && b.sem(env)); // #SEM
 
 //%% extract src/builder/mod.rs :: trait BottomUpBuilder<'a, Ptr> :: fn or
 //%% @ret r
@@ -52,35 +64,50 @@ pub trait BottomUpBuilder<'a, Ptr: DDNNFPtr> {
         requires self.bu_inv(), self.ok(a), self.ok(b),
         ensures self.ok(r),
             self.shape2(a) && self.shape2(b) ==> self.shape2(r), // #C02
-            forall|env: Env| #![trigger tr(env)] #![trigger r.sem(env)] tr(env) ==> r.sem(env) == (a.sem(env) || b.sem(env)),
+            forall|env: Env| #![trigger tr(env)] #![trigger r.sem(env)] tr(env) ==> r.sem(env) == (a.sem(env) || b.sem(env)), // #SEM
 //%% end
 
     fn negate(&'a self, f: Ptr) -> (r: Ptr)
         requires self.bu_inv(), self.ok(f),
-        ensures self.ok(r), self.shape2(f) ==> self.shape2(r), forall|env: Env| #![trigger tr(env)] #![trigger r.sem(env)] tr(env) ==> r.sem(env) == !f.sem(env);
+        ensures
+            self.ok(r),
+            self.shape2(f) ==> self.shape2(r), // #C02
+            forall|env: Env| #![trigger tr(env)] #![trigger r.sem(env)] tr(env) ==> r.sem(env) == !f.sem(env); // #SEM
 
     fn ite(&'a self, f: Ptr, g: Ptr, h: Ptr) -> (r: Ptr)
         requires self.bu_inv(), self.ok(f), self.ok(g), self.ok(h),
-        ensures self.ok(r), self.shape2(f) && self.shape2(g) && self.shape2(h) ==> self.shape2(r), forall|env: Env| #![trigger tr(env)] #![trigger r.sem(env)] tr(env) ==> r.sem(env) == ite3(f.sem(env), g.sem(env), h.sem(env));
+        ensures
+            self.ok(r),
+            self.shape2(f) && self.shape2(g) && self.shape2(h) ==> self.shape2(r), // #C02
+            forall|env: Env| #![trigger tr(env)] #![trigger r.sem(env)] tr(env) ==> r.sem(env) == ite3(f.sem(env), g.sem(env), h.sem(env)); // #SEM
 
     fn iff(&'a self, a: Ptr, b: Ptr) -> (r: Ptr)
         requires self.bu_inv(), self.ok(a), self.ok(b),
-        ensures self.ok(r), self.shape2(a) && self.shape2(b) ==> self.shape2(r), forall|env: Env| #![trigger tr(env)] #![trigger r.sem(env)] tr(env) ==> r.sem(env) == (a.sem(env) == b.sem(env));
+        ensures
+            self.ok(r),
+            self.shape2(a) && self.shape2(b) ==> self.shape2(r), // #C02
+            forall|env: Env| #![trigger tr(env)] #![trigger r.sem(env)] tr(env) ==> r.sem(env) == (a.sem(env) == b.sem(env)); // #SEM
 
     fn xor(&'a self, a: Ptr, b: Ptr) -> (r: Ptr)
         requires self.bu_inv(), self.ok(a), self.ok(b),
-        ensures self.ok(r), self.shape2(a) && self.shape2(b) ==> self.shape2(r), forall|env: Env| #![trigger tr(env)] #![trigger r.sem(env)] tr(env) ==> r.sem(env) == (a.sem(env) != b.sem(env));
+        ensures
+            self.ok(r),
+            self.shape2(a) && self.shape2(b) ==> self.shape2(r), // #C02
+            forall|env: Env| #![trigger tr(env)] #![trigger r.sem(env)] tr(env) ==> r.sem(env) == (a.sem(env) != b.sem(env)); // #SEM
 
     /// exists v. f  ==  f[v := true] or f[v := false]
     fn exists(&'a self, f: Ptr, v: VarLabel) -> (r: Ptr)
         requires self.bu_inv(), self.ok(f), self.lbl_ok(v),
         ensures self.ok(r), self.shape2(f) ==> self.shape2(r),
-            forall|env: Env| #![trigger tr(env)] #![trigger r.sem(env)] tr(env) ==> r.sem(env) == (f.sem(upd(env, v.0, true)) || f.sem(upd(env, v.0, false)));
+            forall|env: Env| #![trigger tr(env)] #![trigger r.sem(env)] tr(env) ==> r.sem(env) == (f.sem(upd(env, v.0, true)) || f.sem(upd(env, v.0, false))); // #SEM
 
     /// f | v = value
     fn condition(&'a self, a: Ptr, v: VarLabel, value: bool) -> (r: Ptr)
         requires self.bu_inv(), self.ok(a), self.lbl_ok(v),
-        ensures self.ok(r), self.shape2(a) ==> self.shape2(r), forall|env: Env| #![trigger tr(env)] #![trigger r.sem(env)] tr(env) ==> r.sem(env) == a.sem(upd(env, v.0, value));
+        ensures
+            self.ok(r),
+            self.shape2(a) ==> self.shape2(r), // #C02
+            forall|env: Env| #![trigger tr(env)] #![trigger r.sem(env)] tr(env) ==> r.sem(env) == a.sem(upd(env, v.0, value)); // #SEM
 
     /// the documented definition:  exists v. (v <=> g) /\ f
 //%% extract src/builder/mod.rs :: trait BottomUpBuilder<'a, Ptr> :: fn compose
@@ -89,7 +116,7 @@ pub trait BottomUpBuilder<'a, Ptr: DDNNFPtr> {
         requires self.bu_inv(), self.ok(f), self.ok(g), self.lbl_ok(lbl),
         ensures self.ok(r),
             self.shape2(f) && self.shape2(g) ==> self.shape2(r), // #C02
-            forall|env: Env| #![trigger tr(env)] #![trigger r.sem(env)] tr(env) ==> r.sem(env) == compose_def(f, lbl, g, env),
+            forall|env: Env| #![trigger tr(env)] #![trigger r.sem(env)] tr(env) ==> r.sem(env) == compose_def(f, lbl, g, env), // #SEM
 //%% @entry
         proof { tr_all(); }
 //%% end
